@@ -260,11 +260,14 @@ def c09(run, drv, rng, ncases, all_k):
     for case in range(ncases):
         with common.guard(run, f"C09 case {case}"), warnings.catch_warnings():
             warnings.simplefilter("ignore")
+            iterate = case % 4 == 1        # inversion with the wind direction iterated, on seas that are not mirror-symmetric
+            kinds_ = [rng.choice(["jonswap", "pm", "mixed", "random"]) for _ in range(3)]
             spec, ths, speed, wdir, wtype, ks, depth_mode = rand_case(run, rng, nd_choices=(16, 24, 36), max_pts=3,
-                                                                      kinds=[rng.choice(["jonswap", "pm", "mixed", "random"]) for _ in range(3)])
+                                                                      kinds=["veering"] * 3 if iterate else kinds_)
             npts = spec.variance_density.shape[0]
             ks = ks[:npts]
-            gen, gp = wp.generation(rng.choice(wp.GEN_VARIANTS))
+            rng.choice(wp.GEN_VARIANTS)                                   # (keeps the random stream of earlier versions)
+            gen, gp = wp.generation(wp.GEN_VARIANTS[case % len(wp.GEN_VARIANTS)])      # every parameter set, also in the quick tier
             dkind = rng.choice(["st4", "st6"])
             dis, dp = wp.dissipation(dkind, rng.choice(wp.ST4_VARIANTS[:3] if dkind == "st4" else wp.ST6_VARIANTS[:2]))
             # steepen the seas until every point breaks: an identically zero dissipation field tests nothing
@@ -293,11 +296,14 @@ def c09(run, drv, rng, ncases, all_k):
                 out["tau"], out["taudir"] = st["stress"].values, st["direction"].values
                 out["z0"] = gen.roughness(wp.da(speed), wp.da(wd_), sp_, wind_speed_input_type=wtype).values
                 if with_inversion:
-                    inv = windspeed_and_direction_from_spectra(SourceTermBalance(gen, dis), wp.da(np.full(npts, 10.0)), sp_)
+                    inv = windspeed_and_direction_from_spectra(SourceTermBalance(gen, dis), wp.da(np.full(npts, 10.0)), sp_,
+                                                               direction_iteration=iterate)
                     out["u10"], out["u10dir"] = inv["u10"].values, inv["direction"].values
                 return out
 
-            with_inv = case % 4 == 0
+            with_inv = case % 4 in (0, 1)
+            if iterate:
+                run.count("inversions_with_direction_iteration")
             base = evaluate(spec, wdir, with_inv)
             klist = list(range(nd)) if all_k else sorted(set([0, 1, nd - 1] + [rng.randrange(nd) for _ in range(2)]))
             for k in klist + ["mirror"]:
@@ -342,10 +348,11 @@ def c09(run, drv, rng, ncases, all_k):
                 if "u10" in got and "u10" in base:
                     ub, ug = base["u10"], got["u10"]
                     both = ~np.isnan(ub) & ~np.isnan(ug)
-                    if not np.allclose(ug[both], ub[both], rtol=0, atol=0.03):
+                    # (iterated: the 1-degree and 10-degree switches of the direction update can fall either way on rounding)
+                    if not np.allclose(ug[both], ub[both], rtol=0, atol=0.1 if iterate else 0.03):
                         run.violation("the estimated wind speed changes under a joint rotation / mirroring", dict(what, base=ub.tolist(), got=ug.tolist()))
                     both = both & (base["Db"] < 0)      # no dissipation: U10 = 0 and the direction of a zero vector means nothing
-                    if np.any(np.abs(wp.ang_diff(ang(got["u10dir"][both]), base["u10dir"][both])) > 1e-6):
+                    if np.any(np.abs(wp.ang_diff(ang(got["u10dir"][both]), base["u10dir"][both])) > (1.5 if iterate else 1e-6)):
                         run.violation("the estimated wind direction does not shift with the rotation / negate with the mirroring",
                                       dict(what, base_dir=base["u10dir"].tolist(), got_dir=got["u10dir"].tolist(), base_u10=ub.tolist(), got_u10=ug.tolist(),
                                            base_ddir=base["Ddir"].tolist(), got_ddir=got["Ddir"].tolist(), bulk_dissipation=base["Db"].tolist()))
@@ -617,10 +624,28 @@ def c11(run, drv, rng, ncases):
     from ocean_science_utilities.wavephysics.balance.balance import SourceTermBalance
     from ocean_science_utilities.wavephysics.windestimate import estimate_u10_from_source_terms
     onset = [(a, k) for k in ("st4", "st6") for a in (0.004, 0.005, 0.006, 0.007, 0.008, 0.010)]
-    for case in range(-len(onset), ncases):
+    corpus = sorted((common.VERIF / "corpus").glob("c11_*.npz"))      # past failures, replayed first in every run
+    for case in range(-len(onset) - len(corpus), ncases):
         with common.guard(run, f"C11 case {case}"), warnings.catch_warnings():
             warnings.simplefilter("ignore")
-            if case < 0:
+            corpus_tds = None
+            if case < -len(onset):
+                import xarray
+                from ocean_science_utilities.wavespectra.spectrum import FrequencyDirectionSpectrum
+                z = np.load(corpus[case + len(onset) + len(corpus)], allow_pickle=False)
+                npts, nf, nd = z["E"].shape
+                kinds, depth_mode = ["jonswap"] * npts, "corpus"
+                mk = lambda v: FrequencyDirectionSpectrum(xarray.Dataset(
+                    data_vars={"variance_density": (("time", "frequency", "direction"), np.array(v)),
+                               "latitude": ("time", np.zeros(npts)), "longitude": ("time", np.zeros(npts)), "depth": ("time", z["depth"])},
+                    coords={"time": np.datetime64("2022-01-01", "ns") + np.arange(npts) * np.timedelta64(3600, "s"),
+                            "frequency": z["f"], "direction": z["d"]}))
+                spec, corpus_tds = mk(z["E"]), mk(z["dEdt"])
+                E = spec.variance_density.values
+                gen, gp = wp.generation({str(k): float(v) for k, v in zip(z["gen_keys"], z["gen_vals"])})
+                dkind = str(z["dkind"])
+                run.count("corpus_cases")
+            elif case < 0:
                 # the onset of breaking, deterministically (the recorded finding is replayed here in every run)
                 alpha, dkind = onset[case + len(onset)]
                 npts, nf, nd, kinds, depth_mode = 1, 14, 12, ["jonswap"], "deep"
@@ -644,7 +669,7 @@ def c11(run, drv, rng, ncases):
             dis, dp = wp.dissipation(dkind, {})
             bal = SourceTermBalance(gen, dis)
             with_rate = case >= 0 and rng.random() < 0.4
-            tds = None
+            tds = corpus_tds
             if with_rate:
                 # content in every bin (also against the wind), a noticeable fraction of the dissipation
                 pattern = np.array([[[rng.uniform(0.2, 1.0) for _ in range(nd)] for _ in range(nf)] for _ in range(npts)])
@@ -653,10 +678,21 @@ def c11(run, drv, rng, ncases):
                 tds = wp.with_density(spec, pattern / np.einsum("pfd,f->p", pattern, np.gradient(spec.frequency.values))[:, None, None] / dth0
                                       * scale[:, None, None] * rng.choice([-1.0, 1.0]) * rng.uniform(2e-6, 2e-5))
             run.count("pair_st4_" + dkind)
+            with_rate = with_rate or tds is not None
             run.count("with_rate" if with_rate else "stationary")
             run.count("depth_" + depth_mode)
             out = estimate_u10_from_source_terms(spec, bal, time_derivative_spectrum=tds)
             u10, udir = out["u10"].values, out["direction"].values
+            if case % 3 == 0:
+                # the pair named to the factory is the pair that is used
+                from ocean_science_utilities.wavephysics.balance.factory import create_balance
+                run.case("factory_pair", key=(case, dkind))
+                outf = estimate_u10_from_source_terms(spec, create_balance("st4", dkind, generation_args={"parameters": gp}),
+                                                      time_derivative_spectrum=tds)
+                if not (np.allclose(outf["u10"].values, u10, rtol=1e-12, atol=0, equal_nan=True)
+                        and np.allclose(outf["direction"].values, udir, rtol=1e-12, atol=0, equal_nan=True)):
+                    run.violation("the balance the factory builds for the pair (st4, " + dkind + ") does not give the wind estimate of that generation/dissipation pair",
+                                  dict(pair=["st4", dkind], factory_u10=outf["u10"].values.tolist(), pair_u10=u10.tolist()))
             Db = dis.bulk_rate(spec).values
             Ddir = dis.mean_direction_degrees(spec).values
             Drate = dis.rate(spec).values
@@ -753,6 +789,88 @@ def c11(run, drv, rng, ncases):
                 run.sample(info)
 
 
+def c11_direction_iteration(run, rng, ncases):
+    """The inversion with the wind direction iterated towards the stress direction: seas under a veering wind
+    (dissipation-weighted wave direction and stress direction differ), placed so that the iteration has to cross
+    the 0/360 seam in both senses."""
+    from ocean_science_utilities.wavephysics.balance.balance import SourceTermBalance
+    from ocean_science_utilities.wavephysics.windestimate import estimate_u10_from_source_terms
+    for case in range(ncases):
+        with common.guard(run, f"C11 direction-iteration case {case}"), warnings.catch_warnings():
+            warnings.simplefilter("ignore")
+            nd = rng.choice([12, 16, 24])
+            nf = 14
+            npts = 3
+            spec, _ = wp.make_spectrum(rng, npts, nf, nd, ["veering"], "deep")
+            gen, gp = wp.generation({})
+            dkind = rng.choice(["st4", "st6"])
+            dis, dp = wp.dissipation(dkind, {})
+            bal = SourceTermBalance(gen, dis)
+            binw = 360.0 / nd
+            # place point 0 just below 360, point 1 just above 0 (whole bins, so the sea itself is unchanged)
+            E = spec.variance_density.values.copy()
+            D0 = dis.mean_direction_degrees(spec).values
+            for i, target in ((0, 360.0 - 0.3 * binw), (1, 0.3 * binw)):
+                k = int(round(((target - D0[i]) % 360) / binw))
+                E[i] = np.roll(E[i], k, axis=1)
+            spec = wp.with_density(spec, E)
+            Ddir = dis.mean_direction_degrees(spec).values
+            Db = dis.bulk_rate(spec).values
+            out = estimate_u10_from_source_terms(spec, bal, direction_iteration=True)
+            u10, udir = out["u10"].values, out["direction"].values
+            info = dict(dissipation=dkind, nd=nd, wave_direction=Ddir.tolist(), u10=u10.tolist(), direction=udir.tolist(), bulk_dissipation=Db.tolist())
+            for i in range(npts):
+                run.case("inversion_direction_iteration", key=(case, i))
+                what = dict(info, point=i)
+                one = wp.subset(spec, [i])
+
+                def bal_at(u, d):
+                    try:
+                        return float(gen.bulk_rate(one, wp.da([u]), wp.da([d])).values[0] + Db[i])
+                    except Exception:
+                        return float("nan")
+                if Db[i] == 0:
+                    continue
+                if abs(wp.ang_diff(udir[i], Ddir[i])) > 0.5 * binw:
+                    run.count("direction_moved_by_more_than_half_a_bin")
+                if (Ddir[i] > 270 and udir[i] < 90) or (Ddir[i] < 90 and udir[i] > 270):
+                    run.count("iteration_crossed_the_seam")
+                if np.isnan(u10[i]):
+                    run.count("u10_nan")
+                    roots = 0
+                    for dd in (Ddir[i], Ddir[i] + 15.0, Ddir[i] - 15.0):
+                        bs = np.array([bal_at(float(u), dd % 360) for u in np.concatenate([np.arange(2.0, 8.01, 1.0), np.linspace(10.0, 40.0, 7)])])
+                        bf = bs[np.isfinite(bs)]
+                        roots += int(len(bf) >= 10 and bf[0] < 0 < bf[-1])
+                    if roots == 3:
+                        run.violation("with direction iteration the inversion reports a missing wind although the balance has a root between 2 and 40 m/s "
+                                      "for every wind direction within 15 degrees of the waves", what)
+                    continue
+                if not (u10[i] > 0):
+                    run.violation("the estimated U10 is neither missing nor positive", what)
+                    continue
+                if not (0 <= udir[i] < 360):
+                    run.violation("the reported wind direction is outside [0, 360)", what)
+                # the last direction update (< 1 degree when converged, up to 10 degrees when the 20 passes run out) comes after
+                # the last solve: the balance at the reported direction closes within a wider window than the solver step
+                offs = [-0.3, -0.1, -0.03, 0.0, 0.03, 0.1, 0.3]
+                vals = [(o, bal_at(float(u10[i]) + o, float(udir[i]))) for o in offs]
+                fin = [b for _, b in vals if np.isfinite(b)]
+                if len(fin) < 5:
+                    run.count("balance_not_evaluable")
+                elif not (min(fin) <= 0 <= max(fin) or min(abs(b) for b in fin) <= 2e-2 * abs(Db[i])):
+                    run.violation("with direction iteration, integrated wind input plus dissipation does not vanish within 0.3 m/s of the estimated U10 at the reported direction",
+                                  dict(what, balance_at_offsets=[[o, b] for o, b in vals]))
+            # batch = single
+            i = rng.randrange(npts)
+            o1 = estimate_u10_from_source_terms(wp.subset(spec, [i]), bal, direction_iteration=True)
+            a, b = o1["u10"].values[0], u10[i]
+            if not ((a != a and b != b) or a == b) or not ((udir[i] != udir[i] and o1["direction"].values[0] != o1["direction"].values[0]) or o1["direction"].values[0] == udir[i]):
+                run.violation("with direction iteration a point of a batch does not get the estimate it gets alone", dict(info, point=i, alone=float(a)))
+            if case < 2:
+                run.sample(info)
+
+
 def main(prop, tier, seed):
     run = common.Run(prop, tier, seed)
     if prop == "C10":
@@ -774,6 +892,7 @@ def main(prop, tier, seed):
             c10_janssen(run, drv, rng, 30 if thorough else 5)
         else:
             c11(run, drv, rng, 60 if thorough else 8)
+            c11_direction_iteration(run, rng, 30 if thorough else 5)
     finally:
         drv.close()
     return run.finish(aud, ASSUMPTIONS, RULES[prop])
